@@ -1191,9 +1191,17 @@ def replay(pid, case):
         seed, idx = case["hist"]
         rng = random.Random(seed)
         for i in range(idx):
-            run_case(gen_case(rng, pid, f"{seed % 46656:x}x{i:x}"), Acc())
-        run, V = run_case(case, Acc())
-        mine = [d for d in V.div if d[0] in (pid, "ALL")]
+            prev_ = gen_case(rng, pid, f"{seed % 46656:x}x{i:x}")
+            run, V = run_case(prev_, Acc())
+            mine = [d for d in V.div if d[0] in (pid, "ALL")]
+            if mine:
+                # which robot of the sequence trips over recycled ids / shared containers varies from process to process:
+                # the same sequence of robots reproduces the violation, on robot #i instead of #idx
+                mine = [(mine[0][0], mine[0][1], f"(robot #{i} of the shard's sequence, seed {seed}) " + mine[0][2])]
+                break
+        else:
+            run, V = run_case(case, Acc())
+            mine = [d for d in V.div if d[0] in (pid, "ALL")]
     if not mine:
         return None
     d = mine[0]
